@@ -99,6 +99,21 @@ func pickStrategy(rng *simrt.Rand) simrt.Strategy {
 	}
 }
 
+// fairStrategy: the GooseLang model of cond.Wait and of lock acquisition spins,
+// so only probabilistically fair strategies are used on that side (a strict
+// priority scheduler such as PCT would let a spinning thread starve the thread
+// it waits for, which says nothing about the translation).
+func fairStrategy(rng *simrt.Rand) simrt.Strategy {
+	switch rng.Intn(4) {
+	case 0, 1:
+		return simrt.Strategy{Kind: "uniform"}
+	case 2:
+		return simrt.Strategy{Kind: "sticky", Den: 2}
+	default:
+		return simrt.Strategy{Kind: "sticky", Den: 6}
+	}
+}
+
 func (c03) Gen(rng *simrt.Rand, tier string, run int) interface{} {
 	load()
 	if len(batch.Funcs) == 0 {
@@ -145,15 +160,21 @@ func (c03) Exec(pj json.RawMessage, tape *simrt.Tape, keepLog bool) harness.RunO
 		return harness.RunOut{Infra: loadErr}
 	}
 	out := harness.RunOut{Probes: map[string]int{}, Faults: map[string]int{}}
+	facts := ""
 	fail := func(oracle, msg string) {
 		if out.Violation == nil {
-			out.Violation = &harness.Violation{Oracle: oracle, Key: oracle, Msg: fmt.Sprintf("program %s (class %s, generator seed %d):\n%s\n%s", p.Prog, p.Class, p.GenSeed, p.Source, msg)}
+			out.Violation = &harness.Violation{Oracle: oracle, Key: oracle + facts, Msg: fmt.Sprintf("program %s (class %s, generator seed %d):\n%s\n%s", p.Prog, p.Class, p.GenSeed, p.Source, msg)}
 		}
 	}
 	if p.GenSeed != batch.Seed || p.N != len(batch.Funcs) {
 		return harness.RunOut{Infra: fmt.Sprintf("plan is for batch (seed %d, n %d) but the driver was built for (seed %d, n %d)", p.GenSeed, p.N, batch.Seed, len(batch.Funcs))}
 	}
 	meta, ok := byName[p.Prog]
+	for _, f := range meta.Features {
+		if f == "loop-var-captured-directly" {
+			facts = "/loop-var-captured-directly"
+		}
+	}
 	fn := prog.Registry[p.Prog]
 	if !ok || fn == nil {
 		return harness.RunOut{Infra: "unknown program " + p.Prog}
@@ -240,7 +261,7 @@ func (c03) Exec(pj json.RawMessage, tape *simrt.Tape, keepLog bool) harness.RunO
 		found := false
 		var seen []string
 		for i := 0; i < 300 && !found; i++ {
-			tp := simrt.NewTape(simrt.NewRand(simrt.Mix(p.GenSeed, simrt.HashString(p.Prog), uint64(i))), pickStrategy(simrt.NewRand(uint64(i))))
+			tp := simrt.NewTape(simrt.NewRand(simrt.Mix(p.GenSeed, simrt.HashString(p.Prog), uint64(i))), fairStrategy(simrt.NewRand(uint64(i))))
 			r := program.Run(p.Prog, []glang.Value{glang.Unit}, glang.Options{Tape: tp})
 			out.Events += r.Steps
 			if r.Outcome == "returned" && r.Value == want {
@@ -259,7 +280,7 @@ func (c03) Exec(pj json.RawMessage, tape *simrt.Tape, keepLog bool) harness.RunO
 	// ---- determinism clause ------------------------------------------------------------
 	if p.Class == "det" {
 		for _, sd := range p.GLSeeds {
-			tp := simrt.NewTape(simrt.NewRand(sd), pickStrategy(simrt.NewRand(sd)))
+			tp := simrt.NewTape(simrt.NewRand(sd), fairStrategy(simrt.NewRand(sd)))
 			r := program.Run(p.Prog, []glang.Value{glang.Unit}, glang.Options{Tape: tp})
 			out.Events += r.Steps
 			out.Probes["gl_interleavings"]++
